@@ -67,7 +67,7 @@ class C16(Check):
     REQUIRED_OBSERVED = ['truncations_checked', 'rechunkings_checked', 'reference_decodes']
 
     def generate(self, rng, tier, shard, nshards):
-        n = 420 if tier == 'quick' else 3000
+        n = 360 if tier == 'quick' else 3000
         big = 3 * 131072 + 17 if tier == 'quick' else 1 << 20
         for k in range(n):
             codec = ('gzip', 'zstd')[k % 2]
